@@ -1,4 +1,5 @@
 import FluteModel.Lemmas.MultiRecvFilter
+import FluteModel.Lemmas.MultiRecvListeners
 /-
   C18 - multi-session demultiplexing, TSI filtering, session listener events.
 
@@ -23,6 +24,21 @@ theorem filter_refines_counts (ops : List FOp) (hlen : ops.length < 2 ^ 64) :
   refine ⟨f, hf, ?_⟩
   intro ep tsi
   exact isValid_frep f _ _ hrep ep tsi
+
+/-- The bound is sharp and is the code's, not the proof's: the 2^64-th `add` of the same target overflows the
+    `u64` counter (`*a += 1`), which panics in the profile the tests run in. -/
+theorem filter_counter_overflow (ep : Endpoint) (tsi : Nat) :
+    TsiFilter.run Filter.new (List.replicate (2 ^ 64) (FOp.add ep tsi)) = .error "add overflow" := by
+  have hsplit : List.replicate (2 ^ 64) (FOp.add ep tsi)
+      = List.replicate (2 ^ 64 - 1) (FOp.add ep tsi) ++ [FOp.add ep tsi] := by
+    rw [← List.replicate_succ']
+  rw [hsplit, TsiFilter.run_append]
+  obtain ⟨f, hf, hrep⟩ := run_frep (List.replicate (2 ^ 64 - 1) (FOp.add ep tsi)) Filter.new (fun _ => 0) (fun _ => 0)
+    frep_new (by intro x; simp) (by intro x; simp)
+  rw [hf]
+  have hc : cntFrom (fun _ => 0) (tsiOps (List.replicate (2 ^ 64 - 1) (FOp.add ep tsi))) (ep, tsi) = 2 ^ 64 - 1 := by
+    rw [tsiOps_replicate_add, cntFrom_replicate_add]; simp
+  simp only [TsiFilter.run, applyOp, add_overflow f _ _ ep tsi hrep hc]
 
 /-- non-vacuity + the wildcard rule on a concrete history: a listen entry WITHOUT source accepts packets from any
     source; a listen entry WITH source does not accept packets that carry no or another source; removing what was
@@ -247,6 +263,35 @@ private def exLis : List (MultiRecv.Op Unit) :=
 example :
     (MultiRecv.run (actMachine (some 1)) (State.new false) exLis).events =
       [.opened exK1, .closed exK1, .opened exK1, .closed exK1, .opened exK1, .closed exK1] := by
+  decide
+
+/-- WHICH listener sees what: after any history (including `add_listener` / `remove_listener` at any point) every
+    registered listener has been told exactly the global event log from its registration on, and every removed
+    listener was told a contiguous segment of it - no listener misses or gets an extra event while registered. -/
+theorem listener_sees_segment {σ π Out : Type} (M : Machine σ π Out) (b : Bool) (ops : List (MultiRecv.Op π)) :
+    let s := MultiRecv.run M (State.new b) ops
+    (∀ x ∈ s.listeners, ∃ n, n ≤ s.events.length ∧ x.2 = s.events.drop n) ∧
+    (∀ x ∈ s.retired, ∃ n m, n + m ≤ s.events.length ∧ x.2 = (s.events.drop n).take m) :=
+  linv_run M ops (State.new b) (linv_new b)
+
+/-- "Per listener registered throughout": a listener added before anything else (it gets id 0) and never removed
+    has been told the complete log, so `listener_alternation`, `listener_shape` and
+    `listener_all_closed_after_drop` are statements about what THAT listener saw. -/
+theorem listener_registered_throughout {σ π Out : Type} (M : Machine σ π Out) (b : Bool) (ops : List (MultiRecv.Op π))
+    (hops : ∀ op ∈ ops, op ≠ MultiRecv.Op.removeListener 0) :
+    let s := MultiRecv.run M (State.new b) (.addListener :: ops)
+    AL.get s.listeners 0 = some s.events :=
+  (fromStart_run M ops _ (by simp [FromStart, MultiRecv.step, State.new, AL.set, AL.get]) hops).1
+
+/-- non-vacuity: a second listener registered after the first session opened and removed before the drop sees the
+    segment in between - a close without an open (the session it never saw opening), which is why the property is
+    stated per listener registered throughout -/
+example :
+    let s := MultiRecv.run (actMachine none) (State.new false)
+      [.addListener, .push exK1.ep (some exD), .addListener, .push exK2.ep (some exD), .push exK1.ep (some exC),
+       .removeListener 1, .drop]
+    AL.get s.listeners 0 = some [.opened exK1, .opened exK2, .closed exK1, .closed exK2]
+      ∧ s.retired = [(1, [.opened exK2, .closed exK1])] := by
   decide
 
 /-! ## 5. The defect found while proving `listener_alternation` (repaired in /repo, commit 69827fb)
